@@ -20,6 +20,58 @@ def step_vgraph(cmd):
     return f
 
 
+def step_layer2(cfgs_quick, cfgs_thorough, vprop=None, crash_tag=None):
+    """Replay on the compiled lexers, one engine run per build configuration."""
+    def f(pid, tier, seed):
+        reps = []
+        for cfg in (cfgs_thorough if tier == "thorough" else cfgs_quick):
+            out = os.path.join(H.OUT, f"{pid}.layer2.{cfg}.json")
+            reps.append((f"layer2[{cfg}]", H.run_vrt(cfg, tier, seed, "layer2", vprop or pid, out, crash_tag=crash_tag if cfg.startswith("u-") else None)))
+        return reps
+    return f
+
+
+def step_stack(pid, tier, seed):
+    reps = []
+    for cfg in ["u-dev", "u-rel"]:
+        out = os.path.join(H.OUT, f"{pid}.stack.{cfg}.json")
+        reps.append((f"stack[{cfg}]", H.run_vrt(cfg, tier, seed, "stack", pid, out)))
+    return reps
+
+
+def step_readprobe(pid, tier, seed):
+    reps = []
+    for cfg in ["u-dev", "u-rel", "f-dev", "f-rel"]:
+        out = os.path.join(H.OUT, f"{pid}.readprobe.{cfg}.json")
+        reps.append((f"readprobe[{cfg}]", H.run_vrt(cfg, tier, seed, "readprobe", pid, out)))
+    return reps
+
+
+def step_valgrind(pid, tier, seed):
+    """The reduced C05 family under valgrind memcheck (unsafe build): inputs are produced natively,
+    then only the compiled lexers are re-run on them under memcheck (exactly sized heap copies).
+    Any invalid read makes valgrind exit with 97 -> a MEMCHECK violation."""
+    reps = []
+    inputs = os.path.join(H.OUT, f"{pid}.valgrind.inputs.json")
+    H.run_vrt("u-rel", tier, seed, "layer2", "C05V", inputs)
+    for cfg in (["u-dev", "u-rel"] if tier == "thorough" else ["u-rel"]):
+        out = os.path.join(H.OUT, f"{pid}.valgrind.{cfg}.json")
+        log = os.path.join(H.OUT, f"{pid}.valgrind.{cfg}.log")
+        wrapper = ["valgrind", "-q", "--error-exitcode=97", f"--log-file={log}", "--num-callers=12"]
+        try:
+            rep = H.run_vrt(cfg, tier, seed, "rawrun", pid, out, wrapper=wrapper, extra=["--file", inputs])
+        except H.MachineryError:
+            txt = open(log).read() if os.path.exists(log) else ""
+            if "Invalid read" in txt or "Invalid write" in txt or "uninitialised" in txt:
+                rep = {"engine": f"valgrind {cfg}", "counts": {"programs": 0}, "observed": {}, "samples": [], "notes": [], "bounds": {}, "exhaustive": True,
+                       "violations": [{"key": f"MEMCHECK/{cfg}", "tag": "MEMCHECK", "case": f"valgrind memcheck on the {cfg} build", "detail": txt[:3000],
+                                       "replay": {"kind": "valgrind", "cfg": cfg, "tag": "MEMCHECK"}}]}
+            else:
+                raise
+        reps.append((f"valgrind[{cfg}]", rep))
+    return reps
+
+
 # --------------------------------------------------------------------------- the table
 
 L1_ASSUME = [
@@ -39,19 +91,19 @@ prop("C01", level="model_checking",
      technique="explicit-state product exploration (captured logos Graph x independent reference automaton), all inputs of every length per definition, over an enumerated definition family",
      text="Exhaustive BFS of the synchronous product of the real pipeline's final Graph with an independently built reference automaton decides longest-match/priority outcome equality for every input of every length, for every definition of a systematically enumerated family; tags OUTCOME, EARLY-STOP.",
      note="Trusted: regex-syntax parser/translator, rustc, harness code. Bounds: definition family F(k)+curated; inputs unbounded at the graph level.",
-     design_ref="5 C01, 3", steps=[step_layer1], assumptions=L1_ASSUME)
+     design_ref="5 C01, 3", steps=[step_layer1, step_layer2(["u-dev"], ["u-dev", "u-rel", "f-dev", "f-rel"])], assumptions=L1_ASSUME)
 prop("C02", level="model_checking",
      technique="explicit-state product exploration (Graph x reference automaton): error fatal offset, stop-consuming point",
      text="The same product exploration decides, for every input of every length, that a match attempt stops exactly at the first symbol after which no pattern can match any extension (tags ERRSPAN, EARLY-STOP, OVERREAD).",
-     note="Same trusted base as C01.", design_ref="5 C02, 3", steps=[step_layer1], assumptions=L1_ASSUME)
+     note="Same trusted base as C01.", design_ref="5 C02, 3", steps=[step_layer1, step_layer2(["u-dev"], ["u-dev", "u-rel", "f-dev", "f-rel"])], assumptions=L1_ASSUME)
 prop("C03", level="model_checking",
      technique="structural invariants on every captured Graph + nullable-pattern rejection over the enumerated family",
      text="Every captured graph is checked for the invariants that make any walk terminate and tile (root records nothing, EOI edges lead to terminal late-accept states, every edge consumes one byte), and every enumerated definition with a pattern that can match the empty string (decided on the reference automaton) must be rejected.",
-     note="Same trusted base as C01.", design_ref="5 C03", steps=[step_layer1], assumptions=L1_ASSUME)
+     note="Same trusted base as C01.", design_ref="5 C03", steps=[step_layer1, step_layer2(["u-dev"], ["u-dev", "u-rel", "f-dev", "f-rel"])], assumptions=L1_ASSUME)
 prop("C07", level="model_checking",
      technique="explicit-state product exploration: at every reachable product state the partial lexer's commit/ask-for-more decision is compared with reference determinedness",
      text="For every prefix of every input (every reachable product state at a legal buffer end) the real return-None condition must coincide with 'some continuation changes the outcome' computed on the reference automaton (tags PARTIAL-UNSOUND, PARTIAL-LATE).",
-     note="Same trusted base as C01.", design_ref="5 C07", steps=[step_layer1], assumptions=L1_ASSUME)
+     note="Same trusted base as C01.", design_ref="5 C07", steps=[step_layer1, step_layer2(["u-dev"], ["u-dev", "u-rel", "f-dev", "f-rel"])], assumptions=L1_ASSUME)
 prop("C08", level="model_checking",
      technique="exhaustive exploration of the reference subset automaton for top-priority ties, compared with the derive's Disambiguation errors over all enumerated pattern pairs/triples x priority schemes",
      text="conflict(reference) <=> Disambiguation(derive), with the same set of named patterns, on every definition of the family that is not rejected for another reason.",
@@ -83,6 +135,40 @@ prop("C19", level="exploration", engine="vgraph",
      text="Every single item and every pair of items of the attribute grammar is run through the library entry point: no panic, and every definition carrying a must-reject predicate (nullable, start look-behind, unsupported feature, greedy dot anywhere, undefined subpattern, bad variant shape) yields compile_error!.",
      note="Library path only in this round; the real proc-macro path (rustc, stable) is added by vprobe.", design_ref="5 C19", steps=[step_vgraph("c19")], assumptions=["span operations behave differently inside rustc; covered by the vprobe step"])
 
+L2_ASSUME = L1_ASSUME + ["Layer 2 compiles the library expansion (logos_codegen::generate) of a compiled sub-corpus; the proc-macro wrapper is a one-line call of the same function (bound by vderive)",
+                         "inputs at Layer 2 are bounded: all strings up to L symbols over a representative alphabet + transition cover x 256 + loop inputs"]
+prop("C04", level="model_checking", engine="vgraph+vrt",
+     technique="product of each accepted str-mode pattern's reference automaton with a UTF-8 validity DFA (acceptance side), plus numeric boundary checks of every span observed on compiled lexers over bounded-exhaustive valid UTF-8 inputs",
+     text="(a) no accepted str-mode pattern or subpattern has a reachable accepting configuration outside 'between characters' (all strings); (b) every span boundary observed through span()/slice()/remainder() on the compiled lexers is a char boundary, checked numerically before slicing, for all enumerated inputs with 1-4 byte characters.",
+     note="Same trusted base as C01; std's is_char_boundary is the boundary oracle.", design_ref="5 C04",
+     steps=[step_layer1, step_layer2(["u-dev", "f-dev"], ["u-dev", "u-rel", "f-dev", "f-rel"])], assumptions=L2_ASSUME)
+prop("C05", level="exploration", engine="vrt",
+     technique="exhaustive enumeration of Source::read over every (len, offset, chunk size) incl. wrap-around offsets, and of lexing inputs of every length around the 8-byte batch in exactly sized heap allocations, under valgrind memcheck; default vs forbid_unsafe builds x dev/release compared through the common reference",
+     text="Source::read returns Some(bytes) iff offset+N <= len in unbounded arithmetic for every enumerated case in all four builds; every compiled lexer run on exactly sized heap inputs is free of invalid reads under memcheck; unsafe and forbid_unsafe builds (dev and release) produce the reference's transcript with no panic.",
+     note="valgrind only makes an out-of-bounds access observable; the deciding step is the exhaustive enumeration. Transcript equality between builds is established through equality with the same reference lexer.", design_ref="5 C05",
+     steps=[step_readprobe, step_layer2(["u-dev", "u-rel", "f-dev", "f-rel"], ["u-dev", "u-rel", "f-dev", "f-rel"], crash_tag="CRASH"), step_valgrind],
+     rules=["Source::read: every len 0..=40 x offset {0..=len+2, usize::MAX-40..=usize::MAX, 2^63+-1, ...} x chunk size {u8,1,2,3,4,7,8,9,16,32} on str and [u8] (non-trivial = end within +-1 of len or overflowing); lexing: all strings <= L symbols + transition cover x 256 + loop inputs of every length 0..=26 on exactly sized heap copies (non-trivial = expected stream has >= 2 items, an error or a skip)"],
+     assumptions=L2_ASSUME + ["memcheck detects reads past an exactly sized heap block (verified in DESIGN calibration)"])
+prop("C06", level="exploration", engine="vrt",
+     technique="exhaustive differential replay: both code generators' compiled output in one process on every enumerated input; state-machine stack bound by a length ladder on a small stack plus a structural check of the emitted code",
+     text="For every compiled definition and every enumerated input the tail-call and state-machine lexers produce identical items, spans and end positions; the state-machine output contains no per-state functions (structural), and runs inputs up to millions of bytes on a 64 KiB stack.",
+     note="Callback invocation order is compared in vderive (real derive).", design_ref="5 C06",
+     steps=[step_vgraph("c06struct"), step_layer2(["u-dev"], ["u-dev", "u-rel", "f-dev", "f-rel"]), step_stack],
+     rules=["all strings <= L symbols over the representative alphabet + transition cover x 256 + loop inputs, per compiled definition, both back ends in one process; non-trivial = expected stream has >= 2 items, an error or a skip"],
+     assumptions=L2_ASSUME)
+prop("C12", level="exploration", engine="vgraph+vrt",
+     technique="exhaustive differential replay of each definition compiled in str mode and in utf8=false mode on every enumerated valid UTF-8 input; product exploration of both graphs against the same reference over valid UTF-8 paths; acceptance of byte-only patterns",
+     text="Ok tokens and spans are equal and the sets of bytes covered by errors are equal between the two modes for every enumerated valid UTF-8 input; byte-only patterns are rejected in str mode and accepted with utf8 = false.",
+     note="Same trusted base as C01.", design_ref="5 C12",
+     steps=[step_vgraph("c12"), step_layer2(["u-dev"], ["u-dev", "u-rel", "f-dev", "f-rel"])],
+     rules=["every str-mode definition of the compiled sub-corpus has a utf8=false twin; inputs: all valid UTF-8 strings <= L symbols + transition cover + loop inputs; non-trivial = expected stream has >= 2 items, an error or a skip"],
+     assumptions=L2_ASSUME)
+prop("C20", level="model_checking", engine="vgraph+vrt",
+     technique="structural invariants of every captured graph (determinism, one byte per edge) + exhaustive read-trace monitoring of compiled lexers (read-trace hook) over bounded-exhaustive and adversarial inputs",
+     text="Every graph edge consumes exactly one byte and states are deterministic; on every replayed input (both back ends, trace build) read offsets never decrease within an attempt, reads are bounded by 2 x bytes examined + 6, and each attempt starts at the end of the previous item or skip.",
+     note="The read-trace hook records every LexerInternal::read, next and trivia call (cfg feature verif_hooks).", design_ref="5 C20",
+     steps=[step_layer1, step_layer2(["t-dev"], ["t-dev"])], assumptions=L2_ASSUME)
+
 ORDER = [f"C{n:02d}" for n in range(1, 21)]
 
 NOT_YET = "check under construction in this round - not claimed yet"
@@ -112,12 +198,27 @@ def run_check(pid, tier, seed):
     cfg = PROPS[pid]
     t0 = time.time()
     reports = []
+    machinery = None
     for st in cfg["steps"]:
-        name, rep = st(pid, tier, seed)
-        reports.append((name, rep))
+        try:
+            r = st(pid, tier, seed)
+        except H.MachineryError as e:
+            # a later engine failed: violations already found by earlier steps are still verdicts
+            machinery = e
+            break
+        reports.extend(r if isinstance(r, list) else [r])
+    if machinery is not None and not any(rep.get("violations") for _, rep in reports):
+        raise machinery
     tot = H.merge_reports(reports)
     for s in cfg.get("rules", []):
         tot["bounds"]["rule"] = s
+    seen_keys = set()
+    uniq = []
+    for v in tot["violations"]:
+        if v["key"] not in seen_keys:
+            seen_keys.add(v["key"])
+            uniq.append(v)
+    tot["violations"] = uniq
     buckets, new = H.split_known(pid, tot["violations"])
     for e, vs in buckets:
         if vs:
@@ -134,11 +235,19 @@ def run_check(pid, tier, seed):
     cov = coverage_for(cfg["level"], tot, tier)
     cov["known_findings_seen"] = [{"what": e["what"], "cases": len(vs)} for e, vs in buckets if vs]
     H.write_evidence(pid, tier, seed, cfg["level"], cov, cfg.get("assumptions", []), time.time() - t0, len(new))
-    for p, v in paths:
+    for n, (p, v) in enumerate(paths):
         print(f"VIOLATION property={pid} replay={p}")
-        print(f"  {v['tag']}: {v['case'][:200]} :: {v['detail'][:300]}")
+        if n < 8:
+            print(f"  {v['tag']}: {v['case'][:200]} :: {v['detail'][:300]}")
+    if new:
+        tags = {}
+        for v in new:
+            tags[v["tag"]] = tags.get(v["tag"], 0) + 1
+        print(f"  violations by tag: {tags}")
     if len(new) > len(paths):
         print(f"  ... and {len(new) - len(paths)} more violations (not written)")
+    if machinery is not None:
+        print(f"NOTE: a later step failed after violations had been found: {str(machinery)[:300]}")
     c = tot["counts"]
     print(f"{pid} [{tier}] {'FAIL' if new else 'ok'}: programs={c.get('programs', 0)} states={c.get('states', 0)} transitions={c.get('transitions', 0)} "
           f"evaluations={c.get('evaluations', 0)} traces={c.get('traces_validated_against_impl', 0)} violations={len(new)} wall={time.time() - t0:.1f}s")
@@ -188,6 +297,8 @@ def replay(path):
 
 def setup():
     H.build_tools()
+    for cfg in H.VRT_CFGS:
+        H.ensure_vrt(cfg, "quick", 0)
     return 0
 
 
